@@ -439,6 +439,28 @@ def format_rules(repo, rep, m):
                          'length with the time of day (seconds since midnight have 1 to 5 digits)' % spec, expected='{:05.0f} / {:03d}', actual='{:%s}' % spec)
     if n < 2:
         rep.undecided('R-FORMAT', 'R-FORMAT::geodepy/gnss.py::set_creation_time::specs', where(f, f.node), 'fewer than two format specifications found')
+    # the seconds of the day run from 00000 to 86399: total_seconds() carries microseconds, and a format that ROUNDS ({:05.0f}) writes 86400
+    # during the last half second of the day (and every stamp of a second half-second one second late); the value must be truncated
+    key = 'R-FORMAT::geodepy/gnss.py::set_creation_time::seconds-truncated'
+    hit = None
+    for node in ast.walk(f.node):
+        if isinstance(node, ast.Call) and isinstance(node.func, ast.Attribute) and node.func.attr == 'format' and isinstance(node.func.value, ast.Constant) \
+                and isinstance(node.func.value.value, str) and re.search(r'\{:0?\d*\.0f\}', node.func.value.value) and node.args:
+            a0 = node.args[0]
+            # resolve a plain name to its last assignment before this statement
+            if isinstance(a0, ast.Name):
+                defs = [st.value for st in ast.walk(f.node) if isinstance(st, ast.Assign) and len(st.targets) == 1 and isinstance(st.targets[0], ast.Name)
+                        and st.targets[0].id == a0.id and st.lineno < node.lineno]
+                a0 = defs[-1] if defs else a0
+            truncated = isinstance(a0, ast.Call) and (getattr(a0.func, 'id', '') in ('int', 'floor') or getattr(a0.func, 'attr', '') in ('floor', 'trunc'))
+            fractional = any(isinstance(c, ast.Attribute) and c.attr == 'total_seconds' for c in ast.walk(a0))
+            if fractional and not truncated:
+                hit = node
+    if hit is not None:
+        rep.violated('R-FORMAT', key, where(f, hit), 'the seconds of the day are written with a rounding format (`%s`) from total_seconds(), which carries microseconds: at 23:59:59.6 the stamp '
+                     'reads YY:DDD:86400 - not a time of day (00000..86399)' % stmt_text(hit)[:50], expected="'{:05d}'.format(int(seconds))", actual=stmt_text(hit)[:60])
+    else:
+        rep.holds('R-FORMAT', key, where(f, f.node), 'the seconds of the day are not rounded up (truncated, or whole seconds)')
     # header rewriting in the editors
     for name in EDITORS:
         g = m.functions[name]
